@@ -224,7 +224,9 @@ def _shutdown(ctx: Ctx, c: Collector) -> None:
         pr.append("no simulator is stopped")
     else:
         st = stops[0]
-        if len(st.iters) != 1 or T.strip(st.iters[0][2]) != allsims or st.term[1][1] != st.iters[0][1]:
+        d = items_iter(st.iters[0]) if len(st.iters) == 1 else None
+        every = d is not None and d[0] == ("attr", me, "sims") and d[2] is not None and st.term[1][1] == d[2] and d[3] in ("values", "items")
+        if not every:
             pr.append("stop() is not called for every simulator of self.sims")
         if guard_terms(st.guards) != [open_g]:
             pr.append("stopping is not guarded by `not self.loop.is_closed()` only (must run at most once, and always when the loop is open)")
